@@ -172,3 +172,556 @@ def unary_ops(ck, rule):
             ck.check(okop, rule, m, "%s applies its operator to the operand's codes" % name, "argument %s" % src(a)[:50], pf.ret_stmt)
             ck.check(okfmt, rule, m, "%s keeps the operand's format and stores the codes raw" % name,
                      "keywords %s" % {k: src(v) for k, v in kws.items()}, pf.ret_stmt, "the result would be re-scaled or re-sized")
+
+
+# ------------------------------------------------------------------------------------------------ C13 bitwise
+
+from ..common import mkterm, mkbool, guard_cases, guard_assignment
+from ..terms import Term, exp2, NotATerm, witness, tmax, fapp, ite
+
+BITOPS = {"binary_and": ast.BitAnd, "binary_or": ast.BitOr, "binary_xor": ast.BitXor}
+
+
+def _reduced(e, pname, nparam):
+    """e is `int(p) % (1 << n)` / `p % 2**n` / `p & ((1<<n)-1)` for parameter p"""
+    e = peel(e)[0]
+    if isinstance(e, ast.BinOp) and isinstance(e.op, (ast.Mod, ast.BitAnd)):
+        base = peel(e.left)[0]
+        if isinstance(base, ast.Call) and dotted(base.func) == "int" and base.args:
+            base = peel(base.args[0])[0]
+        if dotted(base) != pname:
+            return False
+        try:
+            m = mkterm(e.right, rename=lambda d: d)
+        except NotATerm:
+            return False
+        M = m if isinstance(e.op, ast.Mod) else m + 1
+        return M == exp2(Term.var(nparam))
+    return False
+
+
+def bit_primitives(ck, rule):
+    """C13.R1: utils.binary_and/or/xor apply & | ^ to both operands reduced mod 2^n_word on every path; binary_invert = 2^n - 1 - x."""
+    prog = ck.prog
+    for name, opc in BITOPS.items():
+        f = prog.func("utils." + name)
+        xp, yp = f.params[0], f.params[1]
+        okn = 0
+        for pf in fpaths(prog, f):
+            if pf.end == "raise":
+                continue
+            if pf.ret is None:
+                ck.bad(rule, f, "%s returns the combined pattern" % name, "path without return value", f.node)
+                continue
+            e = peel(pf.ret)[0]
+            if isinstance(e, ast.Call) and dotted(e.func) == "int" and e.args:
+                e = peel(e.args[0])[0]
+            if not (isinstance(e, ast.BinOp) and isinstance(e.op, (ast.BitAnd, ast.BitOr, ast.BitXor))):
+                ck.bad(rule, f, "%s combines the two n_word-bit patterns on every path" % name, "returns %s under %s" % (src(pf.ret)[:60], [(src(g[2])[:40], g[1]) for g in pf.guards if g[2] is not None]), pf.ret_stmt,
+                       "a path that returns an operand without reducing/combining it leaks a negative or oversized value")
+                continue
+            if not isinstance(e.op, opc):
+                ck.bad(rule, f, "%s applies the operator of its name" % name, "%s uses %s" % (name, type(e.op).__name__), pf.ret_stmt, "the wrong bitwise operator")
+                continue
+            rx = _reduced(e.left, xp, "n_word") or _reduced(e.right, xp, "n_word")
+            ry = _reduced(e.left, yp, "n_word") or _reduced(e.right, yp, "n_word")
+            if not (rx and ry):
+                ck.bad(rule, f, "%s reduces both operands modulo 2^n_word before combining them" % name, "operands %s, %s" % (src(e.left)[:40], src(e.right)[:40]), pf.ret_stmt,
+                       "a negative (signed) operand is not converted to its two's-complement pattern")
+                continue
+            okn += 1
+        if okn:
+            ck.ok(rule, f, "%s = (x mod 2^n) %s (y mod 2^n) on %d path(s)" % (name, {"binary_and": "&", "binary_or": "|", "binary_xor": "^"}[name], okn))
+        ck.saw(f)
+    f = prog.func("utils.binary_invert")
+    for pf in fpaths(prog, f):
+        if pf.end != "return" or pf.ret is None:
+            continue
+        e = peel(pf.ret)[0]
+        if isinstance(e, ast.Call) and dotted(e.func) == "int" and e.args:
+            e = e.args[0]
+        isnone = [g for g in pf.guards if g[2] is not None and src(g[2]) == "n_word is None"]
+        if isnone and isnone[-1][1]:
+            continue
+        try:
+            t = mkterm(e, rename=lambda d: d)
+        except NotATerm as ex:
+            ck.unsure(rule, f, "binary_invert is a term", pf.ret_stmt, str(ex))
+            continue
+        o = exp2(Term.var("n_word")) - 1 - Term.var(f.params[0])
+        ck.check(t == o, rule, f, "binary_invert(x) = 2^n_word - 1 - x (all n_word bits flipped)", "returns %s" % t.show(), pf.ret_stmt, {"witness": witness(t, o)})
+
+
+def resign_helper(ck, rule):
+    """C13.R3: twos_complement_repr maps a pattern in [0, 2^n) to the signed code: v >= 2^(n-1) -> v - 2^n (boundary included)."""
+    prog = ck.prog
+    f = prog.func("utils.twos_complement_repr")
+    vp, nb = f.params[0], f.params[1]
+    M, H = exp2(Term.var(nb)), exp2(Term.var(nb) - 1)
+    v = Term.var(vp)
+    seen_adjust = False
+    for pf in fpaths(prog, f):
+        if pf.end != "return" or pf.ret is None:
+            continue
+        neg = [g for g in pf.guards if g[2] is not None and isinstance(g[2], ast.Compare) and dotted(g[2].left) == vp and isinstance(g[2].ops[0], ast.Lt)
+               and isinstance(g[2].comparators[0], ast.Constant) and g[2].comparators[0].value == 0]
+        if neg and neg[0][1]:
+            continue     # negative inputs: outside the patterns the operators feed it
+        # remaining guards: the sign test
+        tests = [g for g in pf.guards if g not in neg]
+        r = peel(pf.ret)[0]
+        # value after reduction is val % M ; classify return as reduced or reduced - M
+        def strip(e):
+            e = peel(e)[0]
+            if isinstance(e, ast.BinOp) and isinstance(e.op, ast.Sub):
+                try:
+                    if mkterm(e.right, rename=lambda d: d) == M:
+                        return strip(e.left)[0], True
+                except NotATerm:
+                    pass
+            return e, False
+        base, adjusted = strip(r)
+        def unint(e):
+            e = peel(e)[0]
+            while isinstance(e, ast.Call) and dotted(e.func) == "int" and e.args:
+                e = peel(e.args[0])[0]
+            return e
+        okbase = isinstance(base, ast.BinOp) and isinstance(base.op, (ast.Mod, ast.BitAnd)) and dotted(unint(base.left)) == vp
+        if not okbase:
+            ck.bad(rule, f, "the pattern is first reduced modulo 2^nbits", "returns %s" % src(r)[:60], pf.ret_stmt)
+            continue
+        if not tests:
+            ck.bad(rule, f, "the sign bit decides whether 2^nbits is subtracted", "unconditional result", pf.ret_stmt)
+            continue
+        g = tests[-1]
+        kind = _sign_test(g[2], vp, nb)
+        if kind is None:
+            ck.unsure(rule, f, "sign test is the bit test (v & 2^(n-1)) != 0 or the comparison v >= 2^(n-1)", g[3], src(g[2])[:80])
+            continue
+        if kind == "strict":
+            ck.bad(rule, f, "the boundary pattern 100..0 (= 2^(nbits-1)) is re-signed to the minimum code", "sign test %s" % src(g[2])[:70], g[3],
+                   "with a strict comparison the pattern 100..0 stays +2^(n-1), which is out of range (then saturated to the maximum)")
+            continue
+        if kind.startswith("wrongconst"):
+            ck.bad(rule, f, "the sign test examines bit n-1", "sign test %s" % src(g[2])[:70], g[3])
+            continue
+        took_sign = g[1] if kind == "set" else (not g[1])
+        if took_sign != adjusted:
+            ck.bad(rule, f, "2^nbits is subtracted exactly when the sign bit is set", "%s on the %s branch" % ("subtracts" if adjusted else "keeps", "sign-set" if took_sign else "sign-clear"), pf.ret_stmt)
+            continue
+        seen_adjust = seen_adjust or adjusted
+    ck.check(seen_adjust, rule, f, "twos_complement_repr: v mod 2^n, minus 2^n when bit n-1 is set (boundary included)", "no re-signing path recognised", f.node)
+    ck.saw(f)
+
+
+def _sign_test(t, vp, nb):
+    """'set' when test true means sign bit set; 'clear' when true means clear; 'strict' for v > H; None unknown"""
+    H = exp2(Term.var(nb) - 1)
+    if isinstance(t, ast.Compare) and len(t.ops) == 1:
+        l, op, r = t.left, t.ops[0], t.comparators[0]
+        # (int(v) & H) != 0
+        lp = peel(l)[0]
+        if isinstance(lp, ast.BinOp) and isinstance(lp.op, ast.BitAnd) and isinstance(r, ast.Constant) and r.value == 0:
+            try:
+                m = mkterm(lp.right, rename=lambda d: d)
+            except NotATerm:
+                return None
+            if m != H:
+                return "wrongconst"
+            if isinstance(op, ast.NotEq):
+                return "set"
+            if isinstance(op, ast.Eq):
+                return "clear"
+        try:
+            rt = mkterm(r, rename=lambda d: d)
+        except NotATerm:
+            return None
+        base = peel(l)[0]
+        if rt == H:
+            if isinstance(op, ast.GtE):
+                return "set"
+            if isinstance(op, ast.Lt):
+                return "clear"
+            if isinstance(op, (ast.Gt, ast.LtE)):
+                return "strict"
+        elif isinstance(op, (ast.GtE, ast.Lt, ast.Gt, ast.LtE)):
+            return "wrongconst"
+    return None
+
+
+def bit_methods(ck, rule):
+    """C13.R2: __and__/__or__/__xor__/__invert__: word-length inequality raises; own primitive with n_word=self.n_word; re-sign iff signed;
+    result = deep copy of self with the pattern stored raw."""
+    prog = ck.prog
+    table = {"__and__": "binary_and", "__or__": "binary_or", "__xor__": "binary_xor", "__invert__": "binary_invert"}
+    tc = prog.func("utils.twos_complement_repr")
+    for name, prim in table.items():
+        m = prog.func("objects.Fxp." + name)
+        pfs = fpaths(prog, m)
+        ck.saw(m, paths=len(pfs))
+        xp = [p for p in m.params if p != "self"]
+        xp = xp[0] if xp else None
+        n_ok = 0
+        raised = False
+        for pf in pfs:
+            isf = [g for g in pf.guards if g[2] is not None and isinstance(g[2], ast.Call) and dotted(g[2].func) == "isinstance" and xp and dotted(g[2].args[0]) == xp]
+            fxp_branch = bool(isf and isf[-1][1])
+            wl = [g for g in pf.guards if g[2] is not None and isinstance(g[2], ast.Compare) and {dotted(g[2].left), dotted(g[2].comparators[0])} == {"self.n_word", "%s.n_word" % xp}]
+            if pf.end == "raise":
+                if wl and ((isinstance(wl[-1][2].ops[0], ast.NotEq) and wl[-1][1]) or (isinstance(wl[-1][2].ops[0], ast.Eq) and not wl[-1][1])):
+                    raised = True
+                continue
+            if fxp_branch:
+                okwl = wl and ((isinstance(wl[-1][2].ops[0], ast.NotEq) and not wl[-1][1]) or (isinstance(wl[-1][2].ops[0], ast.Eq) and wl[-1][1]))
+                # the check must be the first thing decided on the Fxp branch (no path around it)
+                if not okwl:
+                    ck.bad(rule, m, "operands of different word lengths are rejected before anything is combined", "Fxp operand path without the n_word equality check: guards %s" % [(src(g[2])[:40], g[1]) for g in pf.guards if g[2] is not None], m.node,
+                           "two words of different length are silently combined")
+                    continue
+            if pf.ret is None:
+                ck.bad(rule, m, "%s returns the result object" % name, "path without return", m.node)
+                continue
+            # returned object: deep copy of self, value stored raw
+            sv = [ce for ce in pf.calls if isinstance(ce.raw.func, ast.Attribute) and ce.raw.func.attr == "set_val"]
+            if len(sv) != 1:
+                ck.bad(rule, m, "%s stores its result once through set_val" % name, "%d set_val calls" % len(sv), m.node)
+                continue
+            recv = peel(sv[0].call.func.value)[0]
+            okrecv = isinstance(recv, ast.Call) and ((isinstance(recv.func, ast.Attribute) and recv.func.attr == "deepcopy" and dotted(recv.func.value) == "self") or (dotted(recv.func) == "copy.deepcopy" and dotted(recv.args[0]) == "self"))
+            if not okrecv:
+                ck.bad(rule, m, "the result is a deep copy of x (x's format, nothing shared)", "result object %s" % src(recv)[:50], sv[0].stmt, "the result shares state with the operand or has another format")
+                continue
+            raw = kw(sv[0].call, "raw", 1)
+            if not (isinstance(raw, ast.Constant) and raw.value is True):
+                ck.bad(rule, m, "the bit pattern is stored as a raw code", "raw=%s" % (src(raw) if raw is not None else None), sv[0].stmt)
+                continue
+            val = sv[0].call.args[0] if sv[0].call.args else kw(sv[0].call, "val")
+            sg = [g for g in pf.guards if g[2] is not None and dotted(g[2]) == "self.signed"]
+            signed = bool(sg and sg[-1][1])
+            inner = peel(val)[0]
+            if signed:
+                okrs = isinstance(inner, ast.Call) and prog.resolve_call(m, inner) == tc.qualname and dotted(kw(inner, "nbits", 1)) == "self.n_word"
+                if not okrs:
+                    ck.bad(rule, m, "a signed result is re-signed with twos_complement_repr(nbits=self.n_word)", "signed path stores %s" % src(val)[:70], sv[0].stmt,
+                           "patterns with the top bit set stay positive and saturate")
+                    continue
+                inner = peel(inner.args[0])[0]
+            elif isinstance(inner, ast.Call) and prog.resolve_call(m, inner) == tc.qualname:
+                ck.bad(rule, m, "an unsigned result is not re-signed", "unsigned path re-signs", sv[0].stmt)
+                continue
+            okprim = isinstance(inner, ast.Call) and prog.resolve_call(m, inner) == "utils." + prim and dotted(kw(inner, "n_word")) == "self.n_word"
+            if not okprim:
+                ck.bad(rule, m, "%s computes with utils.%s(n_word=self.n_word)" % (name, prim), "computes %s" % src(inner)[:70], sv[0].stmt, "wrong primitive or word length")
+                continue
+            a0 = peel(inner.args[0])[0] if inner.args else None
+            if dotted(a0) != "self.val":
+                ck.bad(rule, m, "the first operand of the primitive is x's code", "first operand %s" % (src(a0)[:40] if a0 is not None else None), sv[0].stmt)
+                continue
+            n_ok += 1
+        if xp:
+            ck.check(raised, rule, m, "%s raises when the word lengths differ" % name, "no raising path guarded by the n_word comparison", m.node,
+                     "operands of different word lengths are silently combined")
+        if n_ok:
+            ck.ok(rule, m, "%s: utils.%s on n_word bits, re-signed iff signed, stored raw into a deep copy (%d paths)" % (name, prim, n_ok))
+
+
+# ------------------------------------------------------------------------------------------------ C14 shifts
+
+from ..scaletype import Typer, Mismatch, Unknown
+
+
+def shift_rules(ck, rule_type, rule_growth, rule_pure):
+    prog = ck.prog
+    for name, sign in (("__rshift__", -1), ("__lshift__", +1)):
+        m = prog.func("objects.Fxp." + name)
+        npar = [p for p in m.params if p != "self"][0]
+        pfs = fpaths(prog, m)
+        ck.saw(m, paths=len(pfs))
+        n = Term.var(npar)
+        okp = 0
+        for pf in pfs:
+            if pf.end == "raise":
+                continue
+            if pf.ret is None:
+                ck.bad(rule_type, m, "%s returns the shifted object" % name, "path without return value", m.node)
+                continue
+            mode = [g for g in pf.guards if g[2] is not None and isinstance(g[2], ast.Compare) and dotted(g[2].left) in ("self.config.shifting", "self.shifting")]
+            # ---- operand untouched
+            for st in pf.stores:
+                if st.path.startswith("self.") or (st.path == "self"):
+                    ck.bad(rule_pure, m, "shifting never modifies its operand", "%s writes %s" % (name, st.path), st.stmt, "x is changed by x %s n" % (">>" if sign < 0 else "<<"))
+            # ---- find the sink: either Y.set_val(E, raw=True) or Y.val = E with Y a fresh object
+            sink = None
+            svs = [ce for ce in pf.calls if isinstance(ce.raw.func, ast.Attribute) and ce.raw.func.attr == "set_val"]
+            vst = [st for st in pf.stores if st.path.endswith(".val") and not st.path.startswith("self")]
+            if svs:
+                ce = svs[-1]
+                recv = peel(ce.call.func.value)[0]
+                val = ce.call.args[0] if ce.call.args else kw(ce.call, "val")
+                raw = kw(ce.call, "raw", 1)
+                if not (isinstance(raw, ast.Constant) and raw.value is True):
+                    ck.bad(rule_type, m, "the shifted codes are stored raw", "raw=%s" % (src(raw) if raw is not None else None), ce.stmt)
+                    continue
+                sink = (recv, val, ce.stmt)
+            elif vst:
+                st = vst[-1]
+                base = pf.env.get(st.path.rsplit(".", 1)[0])
+                sink = (peel(base)[0] if base is not None else None, st.value, st.stmt)
+            if sink is None:
+                ck.bad(rule_type, m, "%s stores the shifted codes into a new object" % name, "no store of shifted codes on this path", m.node)
+                continue
+            recv, val, node = sink
+            # the value must be the operand's codes shifted in the operator's own direction
+            v = peel(val)[0]
+            want_op = ast.RShift if sign < 0 else ast.LShift
+            if not (isinstance(v, ast.BinOp) and isinstance(v.op, (ast.RShift, ast.LShift))):
+                ck.bad(rule_type, m, "the result's codes are the operand's codes shifted by n", "stores %s" % src(val)[:70], node,
+                       "not an arithmetic shift of the codes (e.g. a zero fast path loses the sign fill of negative values)")
+                continue
+            base = peel(v.left)[0]
+            # base: self.val or (deep copy of self).val
+            okbase = dotted(base) == "self.val" or (isinstance(base, ast.Attribute) and base.attr == "val" and isinstance(peel(base.value)[0], ast.Call)
+                                                   and isinstance(peel(base.value)[0].func, ast.Attribute) and peel(base.value)[0].func.attr == "deepcopy")
+            if not okbase:
+                ck.bad(rule_type, m, "the shifted codes are the operand's own", "shifts %s" % src(v.left)[:50], node)
+                continue
+            if not isinstance(v.op, want_op):
+                ck.bad(rule_type, m, "%s shifts in its own direction" % name, "uses %s" % type(v.op).__name__, node, "x >> n computed as x << n or vice versa")
+                continue
+            try:
+                k = mkterm(peel(v.right)[0], rename=lambda d: d)
+            except NotATerm as e:
+                ck.unsure(rule_type, m, "shift count is a term", node, str(e))
+                continue
+            # receiver format
+            F_nfrac = F_nword = None
+            fresh_copy = False
+            if isinstance(recv, ast.Call) and prog.is_fxp_ctor(m, recv):
+                F_nfrac, F_nword = kw(recv, "n_frac"), kw(recv, "n_word")
+                okfmt = dotted(kw(recv, "signed")) == "self.signed"
+                if not okfmt:
+                    ck.bad(rule_growth, m, "the result keeps the operand's signedness", "signed=%s" % (src(kw(recv, "signed")) if kw(recv, "signed") is not None else None), node)
+                    continue
+            elif isinstance(recv, ast.Call) and isinstance(recv.func, ast.Attribute) and recv.func.attr == "deepcopy" and dotted(recv.func.value) == "self":
+                fresh_copy = True
+            else:
+                ck.bad(rule_pure, m, "the result is a new object (constructor or deep copy of the operand)", "result object %s" % (src(recv)[:50] if recv is not None else None), node,
+                       "the operand itself (or a shallow copy sharing its state) is modified/returned")
+                continue
+            nf = mkterm(F_nfrac, rename=lambda d: d) if F_nfrac is not None else Term.var("self.n_frac")
+            nw = mkterm(F_nword, rename=lambda d: d) if F_nword is not None else Term.var("self.n_word")
+            sf, sw = Term.var("self.n_frac"), Term.var("self.n_word")
+            # scale: code c >> k represents the same real at scale t - k ; stored at nf. value exponent = (t -+ k) - nf must be -+n
+            t = sf + (k if sign > 0 else -k)
+            expo = t - nf
+            ck.saw(terms=1)
+            if expo != n * sign:
+                ck.bad(rule_type, m, "x %s n equals x * 2^(%sn): the stored code has the result's binary point" % (">>" if sign < 0 else "<<", "-" if sign < 0 else ""),
+                       "codes shifted by %s and stored with n_frac = %s: value scaled by 2^(%s)" % (k.show(), nf.show(), expo.show()), node,
+                       {"witness": witness(expo, n * sign), "meaning": "the result is wrong by a power of two"})
+                continue
+            # ---- growth and mode dispatch
+            expanding = not fresh_copy and (nw != sw or nf != sf)
+            is_expand_guard = [g for g in mode if const_str(g[2].comparators[0]) == "expand"]
+            if expanding:
+                okm = bool(is_expand_guard and is_expand_guard[-1][1] and isinstance(is_expand_guard[-1][2].ops[0], ast.Eq))
+                if not okm:
+                    ck.bad(rule_growth, m, "the format grows only in 'expand' mode", "format grows under %s" % [(src(g[2]), g[1]) for g in mode], node,
+                           "in trunc/keep mode the format must stay unchanged (one of the three modes takes the wrong branch)")
+                    continue
+                if sign < 0:
+                    e1, e2 = nw - sw, nf - sf
+                    if e1 != e2:
+                        ck.bad(rule_growth, m, "expand >> grows word and fraction by the same amount", "word grows by %s, fraction by %s" % (e1.show(), e2.show()), node)
+                        continue
+                    if k != n - e2:
+                        ck.bad(rule_growth, m, "expand >> shifts the codes by n minus the fraction growth", "shifts by %s with growth %s" % (k.show(), e2.show()), node)
+                        continue
+                else:
+                    o = tmax(sw, fapp("amax", fapp("bitlen", Term.var("self.val"))) + Term.bvar("self.signed") + n)
+                    nwb = mkterm(F_nword, rename=lambda d: d, bool_names=("self.signed",))
+                    if nwb != o:
+                        ck.bad(rule_growth, m, "expand << sizes the word as max(n_word, bit length of the largest |code| + sign bit + n)", "n_word = %s" % nwb.show()[:120], node,
+                               "the word is too short for some code (e.g. -1 needs one bit plus the sign): the shifted value is clamped")
+                        continue
+            else:
+                if not mode:
+                    okm = True
+                elif not is_expand_guard:
+                    okm = False
+                elif not is_expand_guard[-1][1]:
+                    okm = isinstance(is_expand_guard[-1][2].ops[0], ast.Eq)
+                else:
+                    # under == 'expand' nothing grows on this path: fine for >> when the expansion amount is 0; << always sizes the word
+                    okm = sign < 0 or nw != sw or True if sign < 0 else (F_nword is not None and dotted(F_nword) != "self.n_word")
+                if not okm:
+                    ck.bad(rule_growth, m, "trunc/keep modes are selected as 'not expand'", "format kept under %s" % [(src(g[2]), g[1]) for g in mode], node,
+                           "a mode other than 'expand' is routed to the expanding branch or vice versa")
+                    continue
+            okp += 1
+        if okp:
+            ck.ok(rule_type, m, "%s: codes shifted by n with the result's binary point on %d paths; growth only under shifting == 'expand'" % (name, okp))
+
+
+# ------------------------------------------------------------------------------------------------ C16 comparisons / conversions
+
+CMP = {"__lt__": ast.Lt, "__le__": ast.LtE, "__eq__": ast.Eq, "__ne__": ast.NotEq, "__gt__": ast.Gt, "__ge__": ast.GtE}
+
+
+def comparator_table(ck, rule):
+    prog = ck.prog
+    for name, opc in CMP.items():
+        m = prog.func("objects.Fxp." + name, required=False)
+        if m is None:
+            ck.bad(rule, "objects.Fxp", "comparison method %s is defined" % name, "%s missing (Python would fall back to identity/NotImplemented)" % name)
+            continue
+        xp = [p for p in m.params if p != "self"][0]
+        pfs = fpaths(prog, m)
+        ck.saw(m, paths=len(pfs))
+        okn = 0
+        for pf in pfs:
+            if pf.end != "return" or pf.ret is None:
+                if pf.end != "raise":
+                    ck.bad(rule, m, "%s returns the truth value" % name, "path without return value", m.node)
+                continue
+            r = pf.ret
+            isf = [g for g in pf.guards if g[2] is not None and isinstance(g[2], ast.Call) and dotted(g[2].func) == "isinstance" and dotted(g[2].args[0]) == xp]
+            fxp_branch = bool(isf and isf[-1][1])
+            if not (isinstance(r, ast.Compare) and len(r.ops) == 1):
+                ck.bad(rule, m, "%s compares the two stored values" % name, "returns %s" % src(r)[:70], pf.ret_stmt,
+                       "the result is not the relation between the exact values (e.g. codes aligned with a flooring shift)")
+                continue
+            l, op, rr = r.left, r.ops[0], r.comparators[0]
+
+            def is_val(e, who):
+                e = peel(e)[0]
+                return isinstance(e, ast.Call) and isinstance(e.func, ast.Attribute) and e.func.attr in ("get_val", "astype", "__call__") and dotted(e.func.value) == who and not e.args and not e.keywords
+            left_ok = is_val(l, "self")
+            right_ok = is_val(rr, xp) if fxp_branch else dotted(rr) == xp
+            if not left_ok or not right_ok:
+                # swapped sides with flipped operator are fine
+                sw = {ast.Lt: ast.Gt, ast.Gt: ast.Lt, ast.LtE: ast.GtE, ast.GtE: ast.LtE, ast.Eq: ast.Eq, ast.NotEq: ast.NotEq}
+                l2ok = is_val(rr, "self") and (is_val(l, xp) if fxp_branch else dotted(l) == xp)
+                if l2ok:
+                    op = sw[type(op)]()
+                else:
+                    ck.bad(rule, m, "%s compares self's value with the other operand's value (never raw codes of different scale)" % name,
+                           "compares %s with %s" % (src(l)[:40], src(rr)[:40]), pf.ret_stmt, "codes of different n_frac are not comparable; a plain number must be compared with the value")
+                    continue
+            if not isinstance(op, opc):
+                ck.bad(rule, m, "%s applies the relation of its own name" % name, "%s uses %s" % (name, type(op).__name__), pf.ret_stmt, "the wrong relation is returned")
+                continue
+            okn += 1
+        if okn >= 2:
+            ck.ok(rule, m, "%s: value %s value on both the Fxp and the plain-number path" % (name, {ast.Lt: "<", ast.LtE: "<=", ast.Eq: "==", ast.NotEq: "!=", ast.Gt: ">", ast.GtE: ">="}[opc]))
+        elif okn == 1:
+            ck.bad(rule, m, "%s handles both an Fxp and a plain-number operand" % name, "only one comparison path recognised", m.node)
+
+
+def conversions(ck, rule):
+    """C16.R2: float = code / 2^n_frac; int = floor (//) or the code itself exactly when n_frac == 0; uraw; raw; __int__/__float__/__bool__."""
+    prog = ck.prog
+    f = prog.func("objects.Fxp.astype")
+    fac = A.factor(prog)
+    pfs = fpaths(prog, f)
+    ck.saw(f, paths=len(pfs))
+    seen_float = seen_int_div = seen_int_raw = 0
+    for pf in pfs:
+        if pf.end != "return" or pf.ret is None:
+            continue
+        scaled = [g for g in pf.guards if g[2] is not None and any(dotted(x) == "self.scaled" for x in ast.walk(g[2]))]
+        if scaled and scaled[-1][1]:
+            continue
+        r = peel(pf.ret)[0]
+        if isinstance(r, ast.Constant) and r.value is None:
+            continue
+        # which dtype branch
+        gtxt = [(src(g[2]), g[1]) for g in pf.guards if g[2] is not None]
+        is_int_branch = any(("dtype == int" in t or "np.integer" in t) and p for t, p in gtxt)
+        is_float_branch = any(("dtype == float" in t or "np.floating" in t) and p for t, p in gtxt) or any(t == "dtype is None" and p for t, p in gtxt[1:2])
+        is_cplx = any(("dtype == complex" in t) and p for t, p in gtxt)
+
+        def rawsel(e):
+            e = peel(e)[0]
+            if dotted(e) == "self.val":
+                return True
+            if isinstance(e, ast.Subscript) and dotted(e.value) == "self.val":
+                return True
+            if isinstance(e, ast.Call) and isinstance(e.func, ast.Attribute) and e.func.attr == "item" and dotted(e.func.value) == "self.val":
+                return True
+            return False
+        if is_int_branch:
+            if rawsel(r):
+                # raw shortcut: only when the factor is provably 1
+                cases = guard_cases(pf.guards, rename=lambda d: d)
+                ok1 = all(c.get(("v", "self.n_frac")) == Term.const(0) for c in cases)
+                ck.check(ok1, rule, f, "astype(int) returns the code itself only when n_frac == 0 (factor 1)", "raw code returned under %s" % [t for t in gtxt if "n_frac" in t[0]], pf.ret_stmt,
+                         "for other fraction lengths the integer value is floor(code * 2^-n_frac), not the code")
+                seen_int_raw += ok1
+            elif isinstance(r, ast.BinOp) and isinstance(r.op, ast.FloorDiv) and rawsel(r.left) and isinstance(r.right, ast.Call) and prog.resolve_call(f, r.right) == fac.qualname and not r.right.args:
+                seen_int_div += 1
+            else:
+                ck.bad(rule, f, "astype(int) returns floor(code / 2^n_frac)", "int branch returns %s" % src(r)[:70], pf.ret_stmt, "true division + int() truncates toward zero instead of flooring")
+        elif is_cplx:
+            continue
+        else:
+            if isinstance(r, ast.BinOp) and isinstance(r.op, ast.Div) and rawsel(r.left) and isinstance(r.right, ast.Call) and prog.resolve_call(f, r.right) == fac.qualname and not r.right.args:
+                seen_float += 1
+            else:
+                ck.bad(rule, f, "astype(float)/get_val return code / 2^n_frac", "returns %s under %s" % (src(r)[:60], gtxt[-3:]), pf.ret_stmt)
+    ck.check(seen_float >= 1 and seen_int_div >= 1 and seen_int_raw >= 1, rule, f,
+             "astype: float = code/2^n_frac (%d paths), int = code // 2^n_frac (%d paths), code itself iff n_frac == 0 (%d paths)" % (seen_float, seen_int_div, seen_int_raw),
+             "float/int conversion branches not all recognised (%d/%d/%d)" % (seen_float, seen_int_div, seen_int_raw), f.node)
+    # get_val delegates
+    g = prog.func("objects.Fxp.get_val")
+    okd = any(isinstance(n, ast.Return) and isinstance(n.value, ast.Call) and prog.resolve_call(g, n.value) == f.qualname for n in ast.walk(g.node))
+    ck.check(okd, rule, g, "get_val delegates to astype", "get_val does not return self.astype(...)", g.node)
+    # raw / uraw
+    rw = prog.func("objects.Fxp.raw")
+    okr = all(isinstance(n.value, ast.Attribute) and dotted(n.value) == "self.val" for n in ast.walk(rw.node) if isinstance(n, ast.Return))
+    ck.check(okr, rule, rw, "raw() returns the stored signed code", "raw() returns something else", rw.node)
+    u = prog.func("objects.Fxp.uraw")
+    for n in ast.walk(u.node):
+        if isinstance(n, ast.Return):
+            e = peel(n.value)[0]
+            M = exp2(Term.var("self.n_word"))
+            good = False
+            why = "not the two's-complement image ite(val < 0, 2^n_word + val, val)"
+            if isinstance(e, ast.Call) and dotted(e.func) == "np.where" and len(e.args) == 3:
+                c, a, b = e.args
+                if isinstance(c, ast.Compare) and len(c.ops) == 1 and dotted(c.left) == "self.val" and isinstance(c.comparators[0], ast.Constant) and c.comparators[0].value == 0:
+                    try:
+                        ta, tb = mkterm(a, rename=lambda d: d), mkterm(b, rename=lambda d: d)
+                        v = Term.var("self.val")
+                        if isinstance(c.ops[0], ast.Lt):
+                            good = ta == M + v and tb == v
+                        elif isinstance(c.ops[0], ast.GtE):
+                            good = ta == v and tb == M + v
+                        else:
+                            why = "comparison with 0 must be strict (<) / >="
+                        if not good and (ta - v - M != Term() and tb - v - M != Term()):
+                            why = "negative codes must be mapped to 2^n_word + code"
+                    except NotATerm:
+                        pass
+            elif isinstance(e, ast.BinOp) and isinstance(e.op, (ast.Mod, ast.BitAnd)) and dotted(peel(e.left)[0]) == "self.val":
+                try:
+                    m_ = mkterm(e.right, rename=lambda d: d)
+                    good = (m_ == M) if isinstance(e.op, ast.Mod) else (m_ + 1 == M)
+                except NotATerm:
+                    pass
+            elif isinstance(e, ast.Call) and "twos_complement_repr" in (dotted(e.func) or ""):
+                why = "twos_complement_repr maps patterns to signed codes (the inverse direction): unsigned codes >= 2^(n-1) become negative"
+            ck.check(good, rule, u, "uraw() is the n_word-bit two's-complement image: negative codes -> 2^n_word + code, others unchanged", "uraw returns %s" % src(n.value)[:80], n, why)
+    for name, conv, arg in (("__int__", "int", "int"), ("__float__", "float", "float")):
+        m = prog.func("objects.Fxp." + name)
+        okc = False
+        for n in ast.walk(m.node):
+            if isinstance(n, ast.Return) and isinstance(n.value, ast.Call) and dotted(n.value.func) == conv and n.value.args:
+                a = n.value.args[0]
+                okc = isinstance(a, ast.Call) and prog.resolve_call(m, a) == f.qualname and a.args and dotted(a.args[0]) == arg
+        ck.check(okc, rule, m, "%s() is %s(self.astype(%s))" % (conv, conv, arg), "%s does not delegate to astype(%s)" % (name, arg), m.node)
+    m = prog.func("objects.Fxp.__bool__")
+    okb = any(isinstance(n, ast.Return) and isinstance(n.value, ast.Call) and dotted(n.value.func) == "bool" and n.value.args and isinstance(n.value.args[0], ast.Call)
+              and isinstance(n.value.args[0].func, ast.Attribute) and n.value.args[0].func.attr in ("get_val", "astype", "raw") or
+              isinstance(n, ast.Return) and isinstance(n.value, ast.Call) and dotted(n.value.func) == "bool" and n.value.args and dotted(n.value.args[0]) == "self.val" for n in ast.walk(m.node))
+    ck.check(okb, rule, m, "bool() is true iff the value (code) is non-zero", "__bool__ does not test the value", m.node)
